@@ -51,4 +51,44 @@ Proof.
   unfold ls_bytes. apply (find_listed key). exact Habs.
 Qed.
 
+(* ---------- boolean side conditions for whole histories: the [wf_hop] hypothesis of C05 / C17 / C04 discharged ---------- *)
+Definition integrity_eqb (a b : integrity) : bool := list_eqb hashv_eqb a b.
+Lemma integrity_eqb_eq a b : integrity_eqb a b = true -> a = b.
+Proof. apply (proj1 (list_eqb_eq hashv_eqb hashv_eqb_eq a b)). Qed.
+
+Definition sri_opt_ok (o : wopts) : bool :=
+  match o_sri o with
+  | Some i => match parse_entry_sri (sri_text i) with Some j => integrity_eqb j i | None => false end
+  | None => true
+  end.
+Lemma sri_opt_ok_wf o : sri_opt_ok o = true -> wf_sri_opt o.
+Proof.
+  unfold sri_opt_ok, wf_sri_opt. intros H i Hi. rewrite Hi in H. destruct (parse_entry_sri (sri_text i)) as [j|]; [|discriminate].
+  rewrite (integrity_eqb_eq j i H). reflexivity.
+Qed.
+
+Definition hop_ok (h : hop) : bool :=
+  match h with
+  | HIns key o now => opts_ok key o now && sri_opt_ok o
+  | HDel key now => opts_ok key wopts0 now
+  end.
+Lemma hop_ok_wf h : hop_ok h = true -> wf_hop hash h.
+Proof.
+  destruct h as [key o now|key now]; cbn [hop_ok wf_hop]; intros H.
+  - apply andb_true_iff in H as [H1 H2]. split; [apply opts_ok_wf_rec; exact H1|apply sri_opt_ok_wf; exact H2].
+  - apply opts_ok_wf_rec. exact H.
+Qed.
+
+(* C05 with every hypothesis decidable: histories of inserts / removals with UTF-8 keys, timestamps < 2^128, sizes < 2^64,
+   normal-form metadata and addressable integrities refine the map *)
+Theorem find_refines_map_closed (h : list hop) f0 :
+  IndexInv f0 -> forallb hop_ok h = true ->
+  IndexInv (fold_left (exec_hop hash) h f0) /\
+  (forall k, run (find hash k) (fold_left (exec_hop hash) h f0)
+             = (Ok (fold_left spec_step h (abs_idx hash f0) k), fold_left (exec_hop hash) h f0)).
+Proof.
+  intros Hi Hh. apply find_refines_map; [exact Hi|]. apply Forall_forall. intros x Hx. apply hop_ok_wf.
+  rewrite forallb_forall in Hh. exact (Hh x Hx).
+Qed.
+
 End M.
